@@ -112,11 +112,11 @@ var All = []*Prop{
 	},
 	{
 		ID:    "C10",
-		Rules: []*core.Rule{rules.JobQueue, rules.Latch, rules.Tracker, rules.Boundary},
+		Rules: []*core.Rule{rules.JobQueue, rules.Latch, rules.Tracker, rules.Boundary, rules.BusyFlag},
 		Explanation: "R-JOBQUEUE: Runtime.jobQueue is written only by a tail append in enqueuePromiseJob, the drain loop of leave() (swap, range from the head, one call per element, repeat until empty) and the nil resets; nobody else reads it; triggerPromiseReactions and addReactions do nothing but enqueue reaction jobs (no synchronous resolution). " +
 			"R-LATCH: both resolving functions test the shared alreadyResolved cell, return at once if set, and set it before any call; (*Promise).fulfill/reject are called only from those closures. " +
 			"R-TRACKER: the rejection tracker is told 'reject' only from (*Promise).reject under !handled and 'handle' only from addReactions under !handled, and addReactions marks the promise handled on every path. " +
-			"R-BOUNDARY (see C03): the queue is drained on the normal exit of the outermost call and dropped on an interrupt.",
+			"R-BOUNDARY (see C03): the queue is drained on the normal exit of the outermost call and dropped on an interrupt. R-BUSYFLAG: a bool field set to true and back to false around calls that may run script (a busy / re-entrancy flag) is reset by a deferred function - a plain reset is skipped by the Go panic that carries an interrupt, stack overflow or exception, and the flag stays set on the idle object (0 such brackets today; positive control = seed C10/l).",
 		Technique:  "field ownership (who-may-write/read), loop-shape check of the drain loop, who-may-call + dominance for the resolved latch, controlling-condition check for tracker notifications",
 		DesignRef:  "DESIGN.md section 4, C10",
 		NotCovered: "the relative order of reactions across promises and thenable jobs, combinators (all/allSettled/any/race) bookkeeping, nested drains when a Go reaction handler re-enters runWrapped: schedule/history semantics",
@@ -174,9 +174,9 @@ var All = []*Prop{
 	},
 	{
 		ID:    "C20",
-		Rules: []*core.Rule{rules.GuardTable, rules.Restore},
+		Rules: []*core.Rule{rules.GuardTable, rules.Restore, rules.StdRegexp},
 		Explanation: "Clause decided: 'whether the optimised path for unmodified RegExp objects or the generic protocol path is taken' is unobservable only if every property the protocol path reads from the regexp de-optimises the fast path when redefined. R-GUARDTABLE computes G = the constant names passed to guardedObject.guard() for RegExp.prototype, and R = the constant names read with getStr from the value handed to checkStdRegexp (taint followed into static callees) plus those read by the built-in flags getter, and requires R ⊆ G up to an audited exemption table (lastIndex, constructor, source). It also checks that every mutating own-property method of regexpObject clears `standard` and that guardedObject's three string mutators call check(). " +
-			"R-RESTORE (match cache of the backtracking engine): the rune temporarily substituted at a start position inside a surrogate pair is restored on every path that leaves the []rune buffer referenced by the per-regexp cache (paths are explored with consistent branching on repeated conditions; a path that sets r.cache = nil is excused).",
+			"R-RESTORE (match cache of the backtracking engine): the rune temporarily substituted at a start position inside a surrogate pair is restored on every path that leaves the []rune buffer referenced by the per-regexp cache (paths are explored with consistent branching on repeated conditions; a path that sets r.cache = nil is excused). R-STDREGEXP: the nil test of a checkStdRegexp() result - the branch between the fast path and the generic exec/lastIndex protocol - is not separated from the call by anything that may run script (argument coercion, species constructor lookup): the pristine-regexp answer is a snapshot, and script in between can install an exec hook the fast path then bypasses (found: split evaluated the guard before speciesConstructorObj).",
 		Technique:  "writer/reader table agreement: constants of guard(...) vs constant getStr names on a tainted value, method-override presence; save/overwrite/restore must-pass-through with condition-consistent path exploration",
 		DesignRef:  "DESIGN.md section 4, C20",
 		NotCovered: "equality of the two regexp engines' match results, UTF-16 index mapping, lastIndex evolution, named groups, validity of the cached position map: all value-level",
@@ -250,7 +250,7 @@ var All = []*Prop{
 	},
 	{
 		ID:    "C03",
-		Rules: []*core.Rule{rules.TryPair, rules.Boundary, rules.CtxFields, rules.ScopedState, rules.PairDefer, rules.ExitAgree, rules.GenResume, rules.GrowInit, rules.StalePtr},
+		Rules: []*core.Rule{rules.TryPair, rules.Boundary, rules.CtxFields, rules.ScopedState, rules.PairDefer, rules.ExitAgree, rules.GenResume, rules.GrowInit, rules.StalePtr, rules.BusyFlag},
 		Explanation: "goja unwinds by Go panics; handleThrow stops at the first tryPanicMarker frame for payloads it does not convert and trusts the frame's owner to pop it. " +
 			"R-TRYPAIR: every function that acquires a marker frame (pushTryFrame(tryPanicMarker,..) or a wrapper that hands the frame to its caller) registers popTryFrame in a defer before any other call; frames turned into markers in place are tagged and skipped by handleThrow for uncatchable payloads. " +
 			"R-BOUNDARY: in each recover handler that converts an uncatchable payload into an error return, the uncatchable branch reaches leaveAbrupt() guarded only by the empty call stack, other payloads are re-panicked, every normal return passes leave()/clearStack(), and leaveAbrupt drops the job queue and clears the interrupt flag. " +
@@ -258,7 +258,7 @@ var All = []*Prop{
 			"R-SCOPEDSTATE: vm fields that name the activation being run for the duration of one Go call (table: curAsyncRunner) are reset by a deferred closure registered before any further call, so that a panic-borne unwind (interrupt, stack overflow, host panic) cannot leave them set on the idle Runtime. " +
 			"R-PAIRDEFER: the runtime-level acquire/release pairs of a confirmed table (pushToStringStack/popFromStringStack, AsyncContextTracker.Resumed/Exited) release in a defer registered before any further call; a deferred vm.popCtx() in a recovering boundary function runs only if the matching pushCtx() completed. " +
 			"R-EXITAGREE: leaveAbrupt() resets at least the vm/Runtime fields that the normal outermost exit (RunProgram's tail and leave()) resets. R-GENRESUME (see C09): the context pushed by generator.enterNext() is popped before every return of next/nextThrow, so no call-stack entry outlives a resumed generator or async continuation. " +
-			"R-GROWINIT: a slice of records that is grown in place (s = s[:len(s)+k], resurrecting whatever was popped earlier) gets every field of the new element assigned, or the element overwritten, in the same function; today the VM pushes with append(s, T{...}) only (0 sites; positive control = seed C03/g, which forgot tryFrame.exception). R-STALEPTR: a pointer to an element of a slice kept in a struct field (`tf := &vm.tryStack[i]`, `&vm.callStack[i]`, `&vm.iterStack[i]`, sparse items, ...) is not used on any path after a call from which a function that reassigns that field (append) is reachable - the push moves the records and a write through the old pointer is lost (handleThrow: the catch block ran twice; generator return: resumed after the try statement).",
+			"R-GROWINIT: a slice of records that is grown in place (s = s[:len(s)+k], resurrecting whatever was popped earlier) gets every field of the new element assigned, or the element overwritten, in the same function; today the VM pushes with append(s, T{...}) only (0 sites; positive control = seed C03/g, which forgot tryFrame.exception). R-STALEPTR: a pointer to an element of a slice kept in a struct field (`tf := &vm.tryStack[i]`, `&vm.callStack[i]`, `&vm.iterStack[i]`, sparse items, ...) is not used on any path after a call from which a function that reassigns that field (append) is reachable - the push moves the records and a write through the old pointer is lost (handleThrow: the catch block ran twice; generator return: resumed after the try statement). R-BUSYFLAG: a bool field set to true and back to false around calls that may run script (a busy / re-entrancy flag) is reset by a deferred function - a plain reset is skipped by the Go panic that carries an interrupt, stack overflow or exception, and the flag stays set on the idle object (0 such brackets today; positive control = seed C10/l).",
 		Technique:  "panic-safe acquire/release pairing (defer-before-next-call), must-pass-through on the CFG with controlling-condition classification, writer/reader field-set agreement derived from struct declarations",
 		DesignRef:  "DESIGN.md section 4, C03",
 		NotCovered: "that the restored values are the right ones (offset arithmetic), call-depth limit arithmetic, effects of a failed k-th callback inside a builtin on that builtin's own data, 'behaves exactly as a runtime that executed only the completed effects' as a whole",
